@@ -145,7 +145,7 @@ CHECKS = {
         text="Lean theorems over finite-support models (exact expectations, any field): importance weights are unbiased; extend/init is properly "
              "weighting; rejuvenation keeps weights; (adaptive) multinomial resampling preserves every estimate-weighted average; and the full "
              "induction: for every pipeline of extend/resample/rejuvenate steps, every N>=1 and every test function, E[acc*(1/N) sum w_i phi(x_i)] "
-             "is the pulled-back target integral - with phi=1, E[exp(log_marginal_likelihood)] = evidence. Tie: init/extend/resample/rejuvenate "
+             "is the pulled-back target integral - with phi=1, E[exp(log_marginal_likelihood)] = evidence; init / extend AS smc.py COMPUTES THEM on generative-function programs (generate weight, custom proposal trace, merge order, weight + proposal score): properly weighted for the default proposal and for a custom proposal over ANY subset of the latents under domination, with the weight formula w = p(y) / (q(z) * prior mass of the sites generate fills), proved counterexamples (the regression formula p(y)/q(z); a proposal overlapping the observations; no domination), and the abstract unbiasedness theorem instantiated with these GFI steps (E[lml] = marginal likelihood of the whole observation sequence). Tie: init/extend/resample/rejuvenate "
              "pipelines and rejuvenation_smc on the real code: per-particle log weights vs scipy densities minus proposal densities, flat and "
              "nested address layouts, default and custom proposals, N in {1..8}; seeded mean of exp(lml) vs exact evidence; Lean exact run of a "
              "tiny system.",
@@ -168,11 +168,11 @@ CHECKS = {
         design="§3 C11"),
     "C15": dict(
         text="Partial. Lean theorem: for every straight-line deterministic program (const/add/sub/mul/neg/cond) and environment, the ADEV "
-             "continuation-passing interpreter with the identity (or any final) continuation equals the forward-mode fold. Tie: a corpus of "
+             "continuation-passing interpreter with the identity (or any final) continuation equals the forward-mode fold; second model (AdevDet2) of the interpreter's default branch: float / discrete values, symbolic-zero (float0) tangents, the zero-tangent fast path, multi-output equations with mixed outputs, call (pjit), fori/scan with mixed carries, cond: for every program and every lawful primitive table the interpreter (CPS or direct) returns the primal and tangent of forward mode; discrete outputs always carry the symbolic zero; fori = n-fold iteration; proved witnesses that the WRONG fast-path conditions (any input zero; any discrete output) give wrong tangents. Tie: a corpus of "
              "deterministic JAX programs (indexing, reductions, dot/transpose, int/bool/complex intermediates, casts, cond, scan/fori) over scalar, "
              "array and pytree arguments: jvp_estimate / grad_estimate / estimate vs jax.jvp / jax.grad / f; random straight-line programs vs the "
-             "Lean interpreter.",
-        note=TB + "C15 (partial): primitive JVP rules, tangent shapes, float0 / symbolic-zero handling and dtype conversion are JAX runtime behaviour covered only by the corpus.",
+             "Lean interpreter; random programs of the richer language (mixed-output helpers, scans with mixed carries, conds, zero-tangent and integer inputs) built both as JAX functions and as driver terms: jvp_estimate vs the model, vs jax.jvp, and the proved witnesses replayed on the implementation.",
+        note=TB + "C15 (partial): the per-primitive JVP rules are assumed lawful (Prim.Lawful, checked against jax.jvp on every generated case); tangent shapes, complex values and dtype conversions are covered only by the corpus; three open findings (loud exceptions): adev-cond-output-count, adev-cond-literal-operand, adev-pjit-int-tangent.",
         technique="Lean 4 proof of the interpreter skeleton + differential corpus against jax.jvp / jax.grad",
         design="§3 C15"),
     "C17": dict(
